@@ -55,6 +55,25 @@ func fsGenPath(r *lib.Rng) string {
 	return strings.Join(parts, "/")
 }
 
+// fsGenPath2: the second path of a rename: unrelated, an ancestor of p, or below p
+func fsGenPath2(r *lib.Rng, p string) string {
+	switch r.Intn(6) {
+	case 0:
+		if i := strings.LastIndex(p, "/"); i > 0 {
+			return p[:i]
+		}
+	case 1:
+		if strings.Count(p, "/") < 3 {
+			return p + fmt.Sprintf("/a%d", r.Intn(3))
+		}
+	case 2:
+		if i := strings.Index(p, "/"); i > 0 {
+			return p[:i]
+		}
+	}
+	return fsGenPath(r)
+}
+
 func fsGenDest(r *lib.Rng) string {
 	n := r.Range(1, 3)
 	parts := make([]string, n)
@@ -104,7 +123,7 @@ func coqFsData(b []byte) string { return coqRle(b) }
 
 func runFSModel(c *Ctx) error {
 	r := c.Rng.Fork()
-	n := c.N(300, 6000)
+	n := c.N(240, 3000)
 	for i := 0; i < n; i++ {
 		cr := r.Fork()
 		// the model's root is [top]; the operations work below top/p0/r0, so that a ".." at the top
@@ -193,11 +212,11 @@ func runFSModel(c *Ctx) error {
 				}
 				res(err, "RUnit")
 			case 12:
-				q := fsGenPath(cr)
+				q := fsGenPath2(cr, p)
 				ops = append(ops, "ORename "+coqPath(p)+" "+coqPath(q))
 				res(os.Rename(abs(p), abs(q)), "RUnit")
 			default:
-				q := fsGenPath(cr)
+				q := fsGenPath2(cr, p)
 				ops = append(ops, "ORename2 "+coqPath(p)+" "+coqPath(q))
 				res(syscall.Rename(abs(p), abs(q)), "RUnit")
 			}
